@@ -79,6 +79,20 @@ Theorem c15_only_dims_and_flags : forall e, panicked (calls e) = false ->
 Proof. exact calls_skeleton. Qed.
 Print Assumptions c15_only_dims_and_flags.
 
+(* Even when a merge panics: a wrapper never adds, removes, reorders or renames an item - what is written is a
+   prefix of the user entries' items (kind and name), and all of them when nothing panicked. *)
+Theorem c15_never_adds_removes_reorders : forall e,
+  prefix (keys (calls e)) (leaf_keys e) /\ (panicked (calls e) = false -> keys (calls e) = leaf_keys e).
+Proof. exact calls_keys. Qed.
+Print Assumptions c15_never_adds_removes_reorders.
+
+(* Extra dimensions only ever come after a metric's own: item by item, the dimensions a format sees start with
+   the dimensions the user value wrote. *)
+Theorem c15_own_dimensions_first : forall e, panicked (calls e) = false ->
+  Forall2 extends (calls e) (map leaf_item (leaves e)).
+Proof. exact calls_dims_first. Qed.
+Print Assumptions c15_own_dimensions_first.
+
 (* Sample groups: the wrapped entries' groups in order, for every nesting (true after the repair). *)
 Theorem c15_sample_group : forall e, sgroup e = spec_group e.
 Proof. exact sgroup_spec. Qed.
